@@ -7,7 +7,8 @@ from mc import lib, pmodel, refmass, refdata, catalogue
 PROPERTY = 'C05'
 RULE = ('full product: every residue string of length 2..L over the 22 unambiguous-mass letters; modified layer: strings of '
         'length 2..4 over {G,K,M,W} with <=2 numeric/formula modifications on residues/termini, written in place or as a '
-        'global rule on N-Term/C-Term/K/G (deviation bounded); pt.fragment and the Fragmenter class; all 6 '
+        'global rule on N-Term/C-Term/K/G (deviation bounded); long layer: all cyclic windows of length 5..15 of fixed words over '
+        'the 22 letters, plain and modified; pt.fragment and the Fragmenter class; all 6 '
         'terminal series, 9 internal series, immonium; charge 1..4; monoisotopic and average; a state = one peptide (all '
         'ions, charges, modes inside); non-trivial = every state (length >= 2)')
 ASSUMPTIONS = ['ion chemistry as in the statement: b=R+p, y=R+H2O+p, a=b-CO, c=b+NH3, x=y+CO-H2, z=y-NH3, immonium=R-CO+p, '
@@ -17,13 +18,16 @@ ASSUMPTIONS = ['ion chemistry as in the statement: b=R+p, y=R+H2O+p, a=b-CO, c=b
 
 LETTERS = ''.join(sorted(set(refdata.AA) - {'X', 'J'}))   # 22 letters
 MOD_TEXTS = ['15.995', '-18.0106', 'Formula:C2H2O', 'Formula:[13C2][12C-2]H2N', '100']
+LONG_WORDS = [LETTERS, LETTERS[::3] + LETTERS[1::3] + LETTERS[2::3], LETTERS[::-1][::2] + LETTERS[::-1][1::2]]
 TERMINAL = ['a', 'b', 'c', 'x', 'y', 'z']
 INTERNAL = ['ax', 'ay', 'az', 'bx', 'by', 'bz', 'cx', 'cy', 'cz']
 
 
 def describe(tier):
     return {'max_len': 4 if tier == 'thorough' else 3, 'letters': LETTERS, 'mod_texts': MOD_TEXTS,
-            'modified_alphabet': 'GKMW', 'modified_max_len': 4 if tier == 'thorough' else 3, 'charges': [1, 2, 3, 4]}
+            'modified_alphabet': 'GKMW', 'modified_max_len': 4 if tier == 'thorough' else 3, 'charges': [1, 2, 3, 4],
+            'long_layer': 'every cyclic window of length 5..15 of %d fixed word(s) over the 22 letters x {plain, two residue '
+                          'modifications, both termini + first residue modified}' % (len(LONG_WORDS) if tier == 'thorough' else 1)}
 
 
 def shards(tier):
@@ -35,10 +39,23 @@ def shards(tier):
     for n in range(2, d['modified_max_len'] + 1):
         for t in itertools.product('GKMW', repeat=n):
             out.append({'kind': 'mod', 'seq': ''.join(t)})
+    for w in range(len(LONG_WORDS) if tier == 'thorough' else 1):
+        for n in range(5, 16):
+            out.append({'kind': 'long', 'word': w, 'n': n})
     return out
 
 
 def gen(shard, tier):
+    if shard['kind'] == 'long':
+        # the upper part of the quantifier (length 5..15): every cyclic window of a fixed word over the 22 letters, plain,
+        # with two residue modifications (middle, last), and with both termini + first residue modified
+        word, n = LONG_WORDS[shard['word']], shard['n']
+        for st in range(len(word)):
+            seq = (word + word)[st:st + n]
+            yield {'seq': seq, 'mods': []}, 0, True
+            yield {'seq': seq, 'mods': [[n // 2, MOD_TEXTS[0]], [n - 1, MOD_TEXTS[2]]]}, 2, True
+            yield {'seq': seq, 'mods': [['n', MOD_TEXTS[2]], ['c', MOD_TEXTS[1]], [0, MOD_TEXTS[4]]]}, 3, True
+        return
     if shard['kind'] == 'plain':
         n = shard['n']
         for t in itertools.product(LETTERS, repeat=n - len(shard['pre'])):
@@ -103,7 +120,20 @@ def check(case, ctx):
             if via == 'fragment':
                 st, frs = lib.call(p.fragment, s, ALL, [1, 2, 3, 4], mono)
             else:
-                st, frs = lib.call(lambda: p.Fragmenter(s, mono).fragment(ALL, [1, 2, 3, 4]))
+                def two_calls():
+                    F = p.Fragmenter(s, mono)
+                    return F.fragment(ALL, [1, 2, 3, 4]), F.fragment(ALL, [1, 2, 3, 4])
+                st, frs = lib.call(two_calls)
+                if st == 'ok':
+                    # the same request on the same Fragmenter object a second time gives the same ions
+                    frs, again = frs
+                    k1 = [(f.ion_type, f.start, f.end, f.charge, f.mass, f.mz) for f in frs]
+                    k2 = [(f.ion_type, f.start, f.end, f.charge, f.mass, f.mz) for f in again]
+                    if k1 != k2:
+                        bad = next((x, y) for x, y in zip(k1 + [None], k2 + [None]) if x != y)
+                        ctx.fail('fragmenter-second-call', list(bad[0]) if bad[0] else None, list(bad[1]) if bad[1] else None,
+                                 text=s, monoisotopic=mono, note='second identical fragment() call on one Fragmenter object')
+                    ctx.evals += 1
             ctx.evals += 1
             if st != 'ok':
                 ctx.fail('fragment-raises', 'list', frs, call=[via, s, 'all', [1, 2, 3, 4], mono])
